@@ -166,6 +166,16 @@ def check_framing(ctx, rng):
                     ctx.event('framing-gap-' + gap)
                     judge_framing(ctx, packets, n, got, done, running, err, {'stream': si, 'cuts': cuts[:20], 'face': cls.__name__, 'gap': gap})
                 ctx.case(('framing', si, cuts[:6], len(cuts)))
+            if si == 0:
+                # long bursts: hundreds / thousands of complete packets available to the reader at once (one read, or two)
+                for count in (300, 700, 3000):
+                    many = [bytes(make_data([rc.comp(8, b'burst'), rc.comp(8, b'%05d' % j)], MetaInfo(), b'x' * (j % 5), None)) for j in range(count)]
+                    blob = b''.join(many)
+                    for chunks in ([blob], [blob[:len(blob) // 2 + 3], blob[len(blob) // 2 + 3:]]):
+                        got, done, running, err = await run_stream_face(TcpFace, chunks, gap='burst')
+                        judge_framing(ctx, many, len(blob), got, done, running, err, {'stream': f'burst-{count}', 'reads': len(chunks)})
+                        ctx.event('framing-long-burst')
+                        ctx.case(('framing-burst', count, len(chunks)))
             # the same face object used for a second connection after a stream that ended in the middle of a packet
             for k in sorted(set(rng.sample(range(1, n), min(6, n - 1)))) if n > 2 else []:
                 cut = rng.randint(0, k)
